@@ -1511,6 +1511,15 @@ func main() {
 	writeIfChanged(filepath.Join(*out, "GenMexProg.v"), w.Bytes())
 	fmt.Printf("go2v: GenMexProg.v %d channel programs\n", ncp)
 
+	// GenC15Score.v (C15): statement structure of the functions that change a peer's scoring attributes,
+	// lock-region tables of the PeerList functions that compute / store a score, census (c15score.go)
+	w.Reset()
+	fmt.Fprintf(&w, header, *repo)
+	fmt.Fprintf(&w, "From Coq Require Import ZArith List String.\nFrom Verif Require Import Spec.C15ScoreSpec.\nImport ListNotations.\nLocal Open Scope Z_scope.\nLocal Open Scope string_scope.\n")
+	nc15p, nc15r, nc15c := root.c15ScoreSafe(&w)
+	writeIfChanged(filepath.Join(*out, "GenC15Score.v"), w.Bytes())
+	fmt.Printf("go2v: GenC15Score.v %d statement structures, %d lock-region tables, %d census rows\n", nc15p, nc15r, nc15c)
+
 	// GenTypedBuf.v, GenMessages.v ...: byte-buffer methods and message codecs (methods.go)
 	emitMethodFiles(all, *repo, *out)
 }
